@@ -106,6 +106,45 @@ example :
     Obs.loginResult .ok ∈ r.2 := by
   decide
 
+/-- A login interrupted inside its burst — at ANY awaited write, by a write failure, a close from another task or
+    `stop()` — initialises one session and destroys it again inside `login()`; afterwards there is no session, no
+    tracked user, no reader and no connected server connection (the listeners that had not run yet do nothing on
+    the closed connection). -/
+theorem C16_login_break_clean (c : Config) (ops : List Op) (j d : Nat) (b : Break) :
+    let st := (run c init ops).1
+    st.conn = .connected → st.session = false → st.reader = false → st.stopped = false →
+    j < (burst c (envOf c st)).length → b ≠ .srvEof →
+    let r := step c st (.loginBreak (some j) d b)
+    r.1.session = false ∧ r.1.tracked = [] ∧ r.1.reader = false ∧ r.1.conn ≠ .connected ∧
+    nInit r.2 = 1 ∧ nDestr r.2 = 1 := by
+  intro st hc hs hr hp hj hb r
+  have hi : Inv st := inv_run c ops init inv_init
+  have hir : Inv r.1 := inv_step c st _ hi
+  have hcnt : nDestr r.2 + b2n r.1.session = nInit r.2 + b2n st.session := count_step c st _ hi
+  have hnj : ¬ j ≥ (burst c (envOf c st)).length := by omega
+  have hclosed : obsClosed r.2 = true ∧ nInit r.2 = 1 := by
+    show obsClosed (step c st (.loginBreak (some j) d b)).2 = true ∧
+      nInit (step c st (.loginBreak (some j) d b)).2 = 1
+    simp only [step, hc, hs, hr, hp, and_self, if_true, doLoginBreak, hnj, if_false]
+    cases b with
+    | writeFail => simp [applyBreak, closeServer, hc, obsClosed, nInit]
+    | close r' => simp [applyBreak, closeServer, hc, obsClosed, nInit]
+    | stop => simp [applyBreak, doStop, closeServer, hc, obsClosed, nInit]
+    | srvEof => exact absurd rfl hb
+  have hcl : cleared r.1 := reset_step c st _ hclosed.1
+  obtain ⟨h1, _, _, _, h5⟩ := hcl
+  have hnc : r.1.conn ≠ .connected := by
+    show (step c st (.loginBreak (some j) d b)).1.conn ≠ .connected
+    simp only [step, hc, hs, hr, hp, and_self, if_true, doLoginBreak, hnj, if_false]
+    cases b with
+    | writeFail => simp [applyBreak, closeServer, hc]
+    | close r' => simp [applyBreak, closeServer, hc]
+    | stop => simp [applyBreak, doStop, closeServer, hc]
+    | srvEof => exact absurd rfl hb
+  refine ⟨h5, h1, (hir.1 hnc).2.1, hnc, hclosed.2, ?_⟩
+  rw [h5, hs, hclosed.2] at hcnt
+  simpa [b2n] using hcnt
+
 /-! ## reconnect iff auto ∧ reason ∉ {REQUESTED, EOF} ∧ credentials ∧ not stopped
 (the pieces first, the single law `C16_reconnect_iff` at the end of the section) -/
 
@@ -198,13 +237,6 @@ theorem C16_release_harmless (c : Config) (st : State) (h : st.held ≠ []) :
   simp [step, h, State.heldReaders]
 
 /-! ## stop is final -/
-
-/-- `stopped` is set exactly by a `stop()` that is applicable — called between operations or while a `login()` is
-    in progress (before the reply, or at any awaited write of the burst). -/
-def Op.isStop : Op → Bool
-  | .stop => true
-  | .loginBreak _ _ .stop => true
-  | _ => false
 
 /-- After `stop()` has returned — wherever it was called: in ANY reachable state, also from another task while a
     `login()` is waiting for the reply or is suspended in any write of its post-login burst (`pre` may end with
